@@ -386,6 +386,8 @@ def oracle_transfers(scn, res):
                 last = re.findall(r"(\d{3}):", a["out"])
                 if not last or int(last[-1]) < 400:
                     v.append((ci, "refused/result-not-negative", a["out"][:120]))
+                if e["kind"] == "F" and a["out"].startswith("ret:list:") and a["out"].rsplit(":", 1)[1] != "-":
+                    v.append((ci, "refused/listing-returned-text", "a refused listing came back with %d bytes of text" % (len(a["out"].rsplit(":", 1)[1]) // 2)))
             continue
         if a["out"].startswith("throw"):
             continue
@@ -756,6 +758,22 @@ def fam_downloads(rng, n, dist, thorough=False):
             dist.add("download:size-%d:%s:%s" % (size, style, comp))
         b.disconnect(True)
         out.append(b.scenario())
+    # the server ends the data connection by a RESET (crash, SO_LINGER 0, a middlebox): that is not an end of file - the
+    # download is reported as an error, never as a complete transfer of what happened to arrive (plain and TLS)
+    for k, size in enumerate([0, 1, 8192, 300000] if not thorough else [0, 1, 8191, 8192, 8193, 100000, 300000, 3 << 20]):
+        b = S.Builder(rng, *ALL_METHODS[k % 4], type="I", tls=(k % 3 == 2), resume=True, tlsver="12")
+        b.connect(login=(b"u", b"p"))
+        data = bytes(rng.randrange(256) for _ in range(min(size, 4096))) * (size // 4096 + 1)
+        kind = "F" if k % 4 == 3 else "D"
+        ci = b.transfer(kind, b"cut.bin" if kind == "D" else None, payload_segs=[data[:size]] if size else [], end="R",
+                        completion=rng.choice(["now", "on_close"]), cb=None)
+        b.exp[ci].update(throws=True, moves_data=False)
+        b.disconnect(False)
+        b.exp[-1]["may_throw"] = True
+        dist.add("download:ended-by-a-reset:size-%d" % size)
+        scn = b.scenario()
+        scn["exp"] = [dict(e, check_open=False) for e in scn["exp"]]
+        out.append(scn)
     # megabytes on one data connection: still exactly the bytes sent, still ONE flush, after the last byte
     for size in ([(3 << 20) + 5] if not thorough else [(2 << 20) - 1, 2 << 20, (2 << 20) + 1, (5 << 20) + 4097, (33 << 20) + 1]):
         b = S.Builder(rng, *rng.choice(ALL_METHODS), type="I")
@@ -783,6 +801,19 @@ def fam_ascii(rng, n, dist, thorough=False):
         mode, rfc = ALL_METHODS[i % 4]
         b = S.Builder(rng, mode, rfc, type="A")
         b.connect(login=(b"u", b"p"))
+        if i % 5 == 0:
+            # a text of a few blocks, read from a std::istream in full blocks (the second call of a scenario goes through the
+            # public stream adapters): every byte value, 0xFF / 0x00 / CR exactly where a new block begins - "all other bytes
+            # unchanged", wherever the source's blocks happen to end
+            size = rng.choice([8192, 16384, 20000, 24577])
+            text = bytearray(rng.choice(b"abc \r\n\xff\x00\x1a\xe9") for _ in range(size))
+            for off in (0, 8191, 8192, 16383, 16384, size - 1):
+                if 0 <= off < size:
+                    text[off] = rng.choice([0xFF, 0xFF, 0x00, 13, 10])
+            text = bytes(text)
+            blocks = [text[k:k + 8192] for k in range(0, size, 8192)]
+            b.transfer("U", b"big.txt", chunks=blocks, cb=rng.choice([None, [False] * 200]), upverb=rng.choice("SUA"))
+            dist.add("ascii:U:full-blocks-with-0xff-at-block-starts")
         for _ in range(rng.randrange(1, 4)):
             data = b"".join(rng.choice(pieces) for _ in range(rng.randrange(0, 7)))
             # cut positions: between CR and LF wherever there is one, plus random cuts
@@ -872,6 +903,26 @@ def fam_faults(rng, n, dist, thorough=False):
               "({h},{p1},-1)", "(0x7f,0,0,1,{p1},{p2})", "({h},{p1},99999999999999999999)", "(1.2.3.4,{p1},{p2})", "(%%,%,%,%,{p1},{p2})"]
     bad229 = ["(|||{P})", "(|||99999|)", "(||{P}|)", "(|||%1%|)", "(|||{P}|", "()", "(||||)", "(|||-1|)", "(|||%s%n|)", "|||{P}|",
               "(|1|127.0.0.1|{P}|)", "(|||18446744073709551616|)", "(   {P} )"]
+    # SIZE / MDTM answered 213 with something else than a number / a time-val: the call ends by returning the reply (the typed
+    # result simply carries no value) - no other exception type, whatever the text
+    bad213 = [b"213  ", b"213    ", b"213 \t ", b"213", b"213 ", b"213  7", b"213 7 ", b"213 -1", b"213 99999999999999999999999999",
+              b"213 18446744073709551616", b"213 2024", b"213 20240101120000.", b"213 20240101120000.99999999999", b"213 :", b"213 \xff\x00",
+              b"213-a\r\n213 b", b"213 " + b"9" * 5000]
+    for k, text in enumerate(bad213 if thorough else rng.sample(bad213, 10)):
+        b = S.Builder(rng, *rng.choice(ALL_METHODS))
+        b.connect(login=(b"u", b"p"))
+        for verb in ((b"SIZE", b"MDTM") if k % 2 == 0 else (b"MDTM", b"SIZE")):
+            ci = b.simple(verb, b"f.bin", 213)
+            b.mark += 1
+            t = text + (b" [m%d]" % b.mark if False else b"")
+            b.cur[-1]["now"][0] = ("R", 213, t)
+            b.exp[ci]["replies"] = [("R", 213, t)]
+        b.simple(b"NOOP", None, 200)
+        b.disconnect(True)
+        scn = b.scenario()
+        scn["exp"] = [dict(e, throws=False, may_throw=False, check_open=False) for e in scn["exp"]]
+        dist.add("fault:garbled-213-reply")
+        out.append(scn)
     for rfc, texts in ((False, bad227), (True, bad229)):
         for bad in (texts if thorough else rng.sample(texts, 9)):
             b = S.Builder(rng, "P", rfc, type=rng.choice("IA"))
@@ -943,7 +994,14 @@ def fam_uploads(rng, n, dist, thorough=False):
         for _ in range(rng.randrange(1, 4)):
             size = rng.choice(sizes)
             data = (bytes(rng.randrange(256) for _ in range(min(size, 4096))) * (size // 4096 + 1))[:size]
-            style = rng.choice(["full", "one-byte", "asked-1", "half", "7000", "random"])
+            if rng.random() < 0.5:
+                # 0xFF (-1 as a char, EOF as an int) and 0x00 exactly where a new block begins, and at the very end
+                data = bytearray(data)
+                for off in (0, 8192, 16384, size - 1):
+                    if 0 <= off < size:
+                        data[off] = rng.choice([0xFF, 0xFF, 0x00, 0x1A])
+                data = bytes(data)
+            style = rng.choice(["full", "full", "one-byte", "asked-1", "half", "7000", "random"])
             chunks, pos = [], 0
             while pos < size:
                 k = {"full": 8192, "one-byte": 1, "asked-1": 8191, "half": 4096, "7000": 7000, "random": rng.randrange(1, 8193)}[style]
@@ -969,17 +1027,23 @@ def fam_uploads(rng, n, dist, thorough=False):
     for mode, rfc in (ALL_METHODS if thorough else [rng.choice(ALL_METHODS[2:]), rng.choice(ALL_METHODS[:2])]):
         b = S.Builder(rng, mode, rfc, type="I")
         b.connect(login=(b"u", b"p"))
-        size = 3 << 20 if thorough else 2 << 20
+        size = 8 << 20 if thorough else 6 << 20          # (more than the socket buffers of a loopback connection take)
         block = bytes(rng.randrange(256) for _ in range(8192))
         chunks = [block] * (size // 8192) + [b"tail"]
+        # (the process keeps receiving signals meanwhile: writes that block on the full window are interrupted part-way)
+        b.signals(True)
         ci = b.transfer("U", b"late.bin", chunks=chunks, upverb=rng.choice("SUA"), cb=None)
         if ci in b.xfer_map:
             si, ri = b.xfer_map[ci]
-            b.sessions[si]["reactions"][ri]["data"].update(rcvbuf=8192, read_delay_s=0.4)
+            b.sessions[si]["reactions"][ri]["data"].update(rcvbuf=4096, read_delay_s=0.4, read_pace_s=0.0003)
+        b.sessions[-1]["idle_timeout"] = 40.0
+        b.signals(False)
         b.simple(b"NOOP", None, 200)
         b.disconnect(True)
         dist.add("upload:late-slow-reader:%s%s" % (mode, "-rfc2428" if rfc else ""))
-        out.append(b.scenario())
+        scn = b.scenario()
+        scn["call_timeout"] = 40.0
+        out.append(scn)
     # ... and one that leaves the data connection unread for 12 s while a third of a megabyte is queued behind a closed
     # window (back-pressure is not a dead peer): everything must still arrive, followed by a clean end of file
     for mode, rfc in ([rng.choice(ALL_METHODS[:2])] if not thorough else ALL_METHODS[:2] + [rng.choice(ALL_METHODS[2:])]):
@@ -1218,7 +1282,7 @@ def fam_reconnect(rng, n, dist, tls_share=0.4):
     """connect / operations / end of session / connect again: the next session must start clean"""
     out = []
     endings = ["quit", "drop", "421", "peer-close", "leftover", "failed-handshake", "mid-transfer-failure", "peer-reset",
-               "421-then-connect", "connect-over", "421-multiline"]
+               "421-then-connect", "connect-over", "421-multiline", "peer-reset-unnoticed", "peer-close-unnoticed"]
     for i in range(n):
         tls = rng.random() < tls_share
         ending = endings[i % len(endings)]
@@ -1263,6 +1327,14 @@ def fam_reconnect(rng, n, dist, tls_share=0.4):
                     b.failing(("S", b"NOOP", None), cmds=[], cmds_may_be_lost=True)
                 b.disconnect(False)
                 b.exp[-1]["may_throw"] = True     # shutdown() on a reset socket may report the reset: allowed by C13
+            elif ending in ("peer-reset-unnoticed", "peer-close-unnoticed"):
+                # the peer resets (closes) the idle connection; the application notices nothing and, a while later, calls
+                # disconnect(false) - the first thing to touch the socket after the reset arrived: whatever it reports, the
+                # client is disconnected and holds no socket afterwards
+                b.simple(b"NOOP", None, 200, reset_after=(ending == "peer-reset-unnoticed"), close_after=True)
+                b.wait(120)
+                b.disconnect(False)
+                b.exp[-1]["may_throw"] = True
             elif ending == "leftover":
                 b.simple(b"STAT", None, 211, extra=[299, 220])
                 b.disconnect(False)
